@@ -936,8 +936,7 @@ func progsOfSize(n int, memo map[int][]*prog) []*prog {
 func genDeepProg(g *vlib.G) {
 	th := g.Thorough()
 	memo := map[int][]*prog{}
-	maxN := vlib.Pick(g, 9, 10)
-	for n := 6; n <= maxN; n++ {
+	for n := 6; n <= 9; n++ {
 		for pi, p := range progsOfSize(n, memo) {
 			if g.Stopped() {
 				return
@@ -960,12 +959,10 @@ func genDeepProg(g *vlib.G) {
 			}
 			base := &lgraph{n: len(c.succ), succ: c.succ}
 			name := p.String()
-			// programs: all in thorough up to 9 nodes (1/4 of the 10-node ones); in
+			// programs with 6..9 flow graph nodes: all in thorough; in
 			// quick all up to 7 nodes, 1/8 of the 8-node and 1/64 of the 9-node ones.
 			pstride := 1
 			switch {
-			case th && n == 10:
-				pstride = 4
 			case !th && n == 8:
 				pstride = 8
 			case !th && n == 9:
@@ -983,13 +980,10 @@ func genDeepProg(g *vlib.G) {
 						continue
 					}
 					k++
-					// gotos: quick 1/16 of the (program, goto) pairs, thorough 1/2 (n<=9) or 1/8.
+					// gotos: quick 1/16 of the (program, goto) pairs, thorough 1/4.
 					gstride := 16
 					if th {
-						gstride = 2
-						if n >= 10 {
-							gstride = 8
-						}
+						gstride = 4
 					}
 					if (k+pi)%gstride != 0 {
 						continue
@@ -1062,7 +1056,7 @@ func genDeepClassic(g *vlib.G) {
 // genDeepLCG: sparse pseudo-random flow graphs on 9..14 nodes with a random
 // (LCG-shuffled) successor order.
 func genDeepLCG(g *vlib.G) {
-	seeds := vlib.Pick(g, 100, 3000)
+	seeds := vlib.Pick(g, 200, 3000)
 	for n := 9; n <= 14; n++ {
 		for _, extra := range []int{2, 4, n/2 + 3, n + 1} {
 			for seed := 0; seed < seeds; seed++ {
